@@ -253,8 +253,8 @@ def check(prog, run):
                     loops += 1
                     r.instance("response(): comprehension over %s, filters: %d" % (ast.unparse(g.iter), len(g.ifs)))
                     if g.ifs:
-                        run.report(r, "%s:GraphQLResult.response:filtered(%s)" % (WRAP, norm_stmt(g.ifs[0])), resp.where(n),
-                                   "the response drops errors for which `%s` is false" % norm_stmt(g.ifs[0]))
+                        run.report(r, "%s:GraphQLResult.response:filtered(%s)" % (WRAP, ast.unparse(g.ifs[0])), resp.where(n),
+                                   "the response drops errors for which `%s` is false" % ast.unparse(g.ifs[0]))
                     if isinstance(n, (ast.SetComp, ast.DictComp)):
                         run.report(r, "%s:GraphQLResult.response:collapsing-container" % WRAP, resp.where(n),
                                    "errors are collected into a set/dict: equal entries collapse")
